@@ -2,7 +2,7 @@
    Model: Mvcc/Model.v ([step], [run cmds := fold_left step]); discipline and declarative
    specifications: Mvcc/Spec.v. Every statement is over ALL command sequences. *)
 From Verif Require Import Mvcc.Model Mvcc.Spec Mvcc.ProofsStore Mvcc.ProofsKey Mvcc.ProofsKstep Mvcc.ProofsShape
-     Mvcc.ProofsStep Mvcc.ProofsRead Mvcc.ProofsLate Mvcc.ProofsMarker Mvcc.ProofsIdem Mvcc.ProofsIdem2 Mvcc.ProofsIdem3 Mvcc.ProofsLockMono Mvcc.ProofsDef Mvcc.ProofsSeq Mvcc.Handler Mvcc.Deadlock Mvcc.ProofsDeadlock Mvcc.ProofsDeadlock2.
+     Mvcc.ProofsStep Mvcc.ProofsRead Mvcc.ProofsLate Mvcc.ProofsMarker Mvcc.ProofsIdem Mvcc.ProofsIdem2 Mvcc.ProofsIdem3 Mvcc.ProofsLockMono Mvcc.ProofsDef Mvcc.ProofsSeq Mvcc.ProofsGcIdem Mvcc.Handler Mvcc.Deadlock Mvcc.ProofsDeadlock Mvcc.ProofsDeadlock2.
 
 (* ---- induction carriers *)
 (* unconditional: keys ascending, write records of every key strictly descending by commit ts *)
@@ -192,6 +192,13 @@ Theorem C12_gc_refuses_lock : forall st s e sp,
 Proof. exact seq_gc_refuses_lock. Qed.
 Print Assumptions C12_gc_refuses_lock.
 
+(* GC at the same safe point twice: same answer, and the second run leaves every key exactly as the first left it *)
+Theorem C12_idempotent_gc : forall cmds s e sp,
+  let st1 := fst (step (run cmds) (GC s e sp)) in
+  snd (step st1 (GC s e sp)) = snd (step (run cmds) (GC s e sp)) /\ forall k, get_ks (fst (step st1 (GC s e sp))) k = get_ks st1 k.
+Proof. exact gc_idem_seq. Qed.
+Print Assumptions C12_idempotent_gc.
+
 Theorem C12_gc_preserves_reads : forall cmds s e sp k t resolved,
   gc_refused (run cmds) s e sp = false -> sp <= t ->
   get (fst (step (run cmds) (GC s e sp))) k t resolved = get (run cmds) k t resolved.
@@ -343,3 +350,9 @@ Example ex_scan_lock_handler :
   map fst (handler_scan_lock st 0 3 2 0 0 (T 9)) = [2] /\ map fst (handler_scan_lock st 3 0 1 0 1 (T 9)) = [3]
   /\ map fst (handler_scan_lock st 0 0 0 0 3 (T 9)) = [1; 2; 3] /\ map fst (handler_scan_lock st 0 0 2 4 0 (T 2)) = [2].
 Proof. vm_compute. repeat split. Qed.
+
+Example ex_gc_twice :
+  let st := run (firstn 12 ex_cmds) in
+  writes_of (fst (step st (GC 0 0 (T 9)))) 1 <> writes_of st 1
+  /\ fst (step (fst (step st (GC 0 0 (T 9)))) (GC 0 0 (T 9))) = fst (step st (GC 0 0 (T 9))).
+Proof. vm_compute. split; [discriminate|reflexivity]. Qed.
